@@ -232,7 +232,7 @@ def generate(seed: int, config: str, tier: str) -> Dict[str, Any]:
         "expr_src": rng.choice(["inline", "inline", "file"]) if cmd != "patch" else "n/a",
         "expr_suffix": rng.choice(["", "\n", "  \n", "\n\n", " "]),
         # an expression file may hold the query on several lines (white space is insignificant in queries)
-        "expr_multiline": rng.choice([0, 0, 0, 1, 2]) if cmd == "path" else 0,
+        "expr_multiline": rng.choice([0, 0, 0, 1, 2]) if cmd == "path" else (rng.choice([0, 0, 0, 1]) if cmd == "pointer" else 0),
         "doc": doc,
         "doc_style": rng.choice(["compact", "indent", "noascii"]),
         "doc_src": rng.choice(["file", "file", "stdin"]),
